@@ -260,6 +260,10 @@ impl Property for C16 {
             },
         };
         let m = model_with(&entries, glob_rt.as_ref(), observed.as_ref(), &layers_rt);
+        if let Some(msg) = unsound_tree_verdict(&entries, &layers_rt) {
+            return Err(format!("{} [tree {:?}]", msg, case.tree.nodes.iter().map(|n| n.path.as_str()).collect::<Vec<_>>()));
+        }
+        st.count("negation_tree_verdicts_validated");
         let fed: BTreeMap<String, usize> = m.fed.keys().map(|k| (k.clone(), 1)).collect();
         // statistics
         let n = layers_rt.len();
